@@ -64,6 +64,18 @@ add("C02", "exploration",
     "Trusts the harness's raw repository reader/writer and the harness clock for the keep-delete boundary (marks are aged 2 min / 10 min away from it).",
     "DESIGN.md section 5 C02")
 
+add("C05", "fault_enumeration",
+    "runtime monitor: for every enumerated single-file fault (remove, truncations, bit flips at every structural position, extension, sibling replacement, index-semantic edits) run the real check(read_data) and, on the same damaged state, read every snapshot completely and compare with its recorded content; violation iff check is clean and a snapshot is unreadable or different",
+    "Thorough tier enumerates all listed fault kinds on every stored file of the target repositories (exhaustive per target); targets, flip bit numbers and (in quick) flip positions / sibling pairs are sampled. Targets include equal-layout packs and packs holding only root trees.",
+    "Trusts the harness's recorded snapshot contents and raw index writer; check returning Err or panicking counts as reporting.",
+    "DESIGN.md section 5 C05")
+
+add("C08", "exploration",
+    "runtime monitor: after every pack-producing command every pack in storage is decoded by the harness's independent parser and compared with the raw index; then index files are removed in all subsets (<=4) and repair_index + check + full reads must reproduce the same repository",
+    "Held on the generated histories over all pack producers (backup, prune repack variants, copy across keys/configs, merge, rewrite, config changes). Sampling of histories; subset enumeration complete up to 4 index files.",
+    "Trusts the harness's AES-CTR/Poly1305-AES composition, trailer decoder, zstd and SHA-256 calls.",
+    "DESIGN.md section 5 C08")
+
 NOT_YET = "check not built yet (work in progress in this round)"
 
 def main():
